@@ -16,7 +16,8 @@ class DaemonLayer:
     """client.c + device.c + device_tcp.c + device_pipe.c running the body of _select_loop  ↔  Pm.Daemon.daemonPass"""
     name = 'daemon-pass'
 
-    def __init__(self, predicates, profile=None, quick=(16, 1200), thorough=(96, 3000), deaths=None, compare=True):
+    def __init__(self, predicates, profile=None, quick=(16, 1200), thorough=(96, 3000), deaths=None, compare=True, leaks=False):
+        self.leaks = leaks
         self.predicates = predicates; self.profile = profile or {}; self.quick = quick; self.thorough = thorough
         self.deaths = deaths  # None: a predicted death just ends the run; else function(death_class) -> sig or None
         self.do_compare = compare
@@ -40,6 +41,15 @@ class DaemonLayer:
         if sim['died'] and self.deaths:
             s = self.deaths(daemon.death_class(sim['stderr']))
             if s: V.append(dict(sig=s, at=len(sim['ops']) - 1, detail=sim['stderr'][-1200:]))
+        if self.leaks:
+            td = sim.get('teardown')
+            if td is not None and 'DIED' in td:
+                V.append(dict(sig='C20 shutdown path crashed: ' + daemon.death_class(sim['stderr']), at=len(sim['ops']) - 1, detail=sim['stderr'][-1500:]))
+            elif 'LeakSanitizer' in sim['stderr']:
+                import re
+                fr = re.findall(r'in (\w+) /[^\n]*src/', sim['stderr'])
+                V.append(dict(sig='C20 memory still allocated and unreachable at exit (LeakSanitizer): ' + ' < '.join(fr[1:4]), at=len(sim['ops']) - 1, detail=sim['stderr'][sim['stderr'].index('LeakSanitizer'):][:1500]))
+            st['C20 runs ended by teardown under LeakSanitizer'] += 1
         for v in V:
             at = v.get('at', len(sim['ops']) - 1)
             v['replay'] = dict(layer=self.name, seed=seed, N=N, profile=self.profile, ops=sim['ops'][:at + 1] if at < 600 else None, at=at)
@@ -117,19 +127,19 @@ def D(*a, **k):
 PROPS['C01'] = dict(layers=[D(P.p_c01, profile=dict(faults=0.4))], planned=['C01_validated (alias expansion)', 'C01_history_free at daemon level'])
 PROPS['C02'] = dict(layers=[D(P.p_c02_c03, P.p_c02_wire, profile=dict(faults=0.5))], planned=['C02_sound end-to-end (102 ⇒ every target commanded and answered ok)', 'C02_cli'])
 PROPS['C03'] = dict(layers=[D(P.p_c02_c03, P.p_c03_justified, profile=dict(faults=0.5))], planned=['C03_justified over whole runs', 'C03_no_memory'])
-PROPS['C04'] = dict(layers=[D(P.p_c04, P.p_c15)], planned=['C04_one_reply', 'C04_no_wedge', 'C04_tenure', 'C04_bound_partial'])
+PROPS['C04'] = dict(layers=[D(P.p_c04, P.p_c04_quit, P.p_c15)], planned=['C04_one_reply', 'C04_no_wedge', 'C04_tenure', 'C04_bound_partial'])
 PROPS['C06'] = dict(layers=[D(P.p_c04, P.p_c15, profile=dict(fatal=0.03, faults=1.5, maxclients=6), deaths=client_deaths)], planned=['C06_total over lines >= CP_LINEMAX (203)', 'C06_reap'])
 PROPS['C07'] = dict(layers=[D(P.p_c20, profile=dict(garbage=0.08, pF6=0.03, calm=0.25), deaths=device_deaths)], planned=['C07_no_abort assembled over whole runs', 'xmatch_used under ExpectBeforeSet'])
 PROPS['C08'] = dict(layers=[D(P.p_c08, P.p_c01, profile=dict(faults=0.5))], planned=['C08_refines without the nesting bound of the mirror (innerLoop 64)', 'composition over postPoll sequences with reconnects'])
-PROPS['C09'] = dict(layers=[D(P.p_c10, profile=dict(garbage=0.05))], planned=['cbuf_refines (index-level model of cbuf.c)', 'buffer capacity / overflow_drop'])
+PROPS['C09'] = dict(layers=[D(P.p_c09_write, P.p_c09_read, profile=dict(garbage=0.05))], planned=['cbuf_refines (index-level model of cbuf.c)', 'buffer capacity / overflow_drop'])
 PROPS['C10'] = dict(layers=[D(P.p_c10)], planned=['C10_head_only', 'C10_transcript', 'C10_fifo'])
 PROPS['C12'] = dict(layers=[D(P.p_c12, P.p_c12_disconnect, P.p_c04, profile=dict(pF6=0.02, calm=0.3))], planned=['C12_ioerr', 'C12_recover_partial'])
 PROPS['C13'] = dict(layers=[config.ConfigLayer()], planned=['C13_listings at daemon level (nodes / device replies) — the replies themselves are mirrored in Pm.Daemon and compared on every run'])
 PROPS['C14'] = dict(layers=[hostlist.HostlistLayer()], planned=['C14_roundtrip', 'C14_sort_perm', 'C14_three_hops'])
 PROPS['C18'] = dict(layers=[lexlayer.LexLayer()], planned=['the flex/bison automata, malloc and regcomp are not modelled: their memory safety on arbitrary input is observed under ASan/UBSan by the whole-file fuzz of this layer, not proved'])
 PROPS['C19'] = dict(layers=[redfish.RedfishLayer()], planned=['C19_bad_input (setplugs argument checks, malformed ranges) on a model of the command parser'])
-PROPS['C20'] = dict(layers=[D(P.p_c20, profile=dict(pF6=0.02, maxclients=6))], planned=['C20_refcount', 'C20_objects', 'C20_shutdown (signal path / teardown not modelled yet)'])
-PROPS['C15'] = dict(layers=[D(P.p_c15, P.p_c04, profile=dict(garbage=0.06, maxclients=6))], planned=['C15_stream over whole runs (needs a ghost record of bytes written in earlier passes)', 'cleanliness of the data-carrying lines through the hostlist mirror'])
+PROPS['C20'] = dict(layers=[D(P.p_c20, profile=dict(pF6=0.02, maxclients=6), leaks=True)], planned=['C20_refcount', 'C20_objects', 'C20_shutdown (signal path / teardown not modelled yet)'])
+PROPS['C15'] = dict(layers=[D(P.p_c15, P.p_c04, P.p_c04_quit, profile=dict(garbage=0.06, maxclients=6))], planned=['C15_stream over whole runs (needs a ghost record of bytes written in earlier passes)', 'cleanliness of the data-carrying lines through the hostlist mirror'])
 PROPS['C16'] = dict(layers=[libpm.LibPmLayer()], planned=['memory safety of the remaining C is observed under ASan, not proved'])
 PROPS['C17'] = dict(layers=[speclayer.SpecLayer()], planned=['specOK_sound: the static predicate implies no send reaches an undefined conversion and every $N read is a defined group, over the interpreter model'])
 PROPS['C11'] = dict(layers=[D(P.p_c11, profile=dict(maxclients=6))], planned=['C11_routing', 'C11_departure', 'C11_backpressure'])
@@ -225,3 +235,55 @@ class PairedLayer:
 
 PROPS['C05'] = dict(layers=[PairedLayer()], planned=['C05_noninterference through a general client phase', 'equality up to renaming of descriptor numbers', 'stutter for the other waiting states'])
 PROPS.move_to_end('C05', last=False)
+
+
+class MarkerLayer(DaemonLayer):
+    """daemon pass on generated marker configurations (script-variant mixes, plug counts and unused plugs drawn per run)"""
+    name = 'daemon-pass-generated-configs'
+
+    def __init__(self, pred_factories, generic=(), profile=None, quick=(16, 700), thorough=(96, 2000), deaths=None):
+        DaemonLayer.__init__(self, list(generic), profile=profile, quick=quick, thorough=thorough, deaths=deaths)
+        self.factories = pred_factories
+
+    def _one(self, args):
+        seed, N = args
+        world = daemon.MarkerWorld(seed)
+        sim = daemon.simulate(seed, N, self.profile, world=world)
+        chunks = daemon.lean_side(sim)
+        diffs = daemon.compare(sim, chunks)
+        tr = trace.parse(sim)
+        V = []; st = collections.Counter()
+        for pr in list(self.predicates) + [f(world) for f in self.factories]:
+            try: pr(tr, V, st)
+            except Exception as e:
+                import traceback
+                V.append(dict(sig='predicate crashed: %s %r' % (getattr(pr, '__name__', '?'), e), detail=traceback.format_exc()[-800:]))
+        if sim['died'] and self.deaths:
+            s = self.deaths(daemon.death_class(sim['stderr']))
+            if s: V.append(dict(sig=s, at=len(sim['ops']) - 1, detail=sim['stderr'][-1200:]))
+        for v in V: v['replay'] = dict(layer=self.name, seed=seed, N=N, profile=self.profile, at=v.get('at', len(sim['ops']) - 1), configuration=world.conf_text())
+        for d in diffs: d['replay'] = dict(layer=self.name, seed=seed, N=N, profile=self.profile, at=d['at'], configuration=world.conf_text())
+        stats = collections.Counter(sim['stats']); stats.update(st)
+        for d in world.devs:
+            for k in d['has']: stats['config: script kind %d defined' % k] += 1
+        if sim['died']: stats['runs ended by a death of the real code: ' + daemon.death_class(sim['stderr'])] += 1
+        nontriv = len(set(hashlib.md5('\n'.join(l for l in co if not l.startswith('O interest')).encode()).digest() for co in sim['couts'] if any(l.startswith('Y ') for l in co)))
+        return dict(passes=len(sim['ops']), nontriv=nontriv, diffs=diffs, violations=V, stats=stats,
+                    sample=dict(seed=seed, configuration=world.conf_text()[:600], first_ops=[o[:120] for o in sim['ops'][20:23]]))
+
+    def replay(self, rp, v):
+        world = daemon.MarkerWorld(rp['seed'])
+        sim = daemon.simulate(rp['seed'], rp['N'], rp.get('profile'), world=world)
+        chunks = daemon.lean_side(sim)
+        print(world.conf_text())
+        at = rp.get('at', len(sim['ops']) - 1)
+        for i in range(max(0, at - 3), min(len(sim['ops']), at + 1)):
+            print('--- pass', i, sim['ops'][i][:400]); print('  C   :', *sim['couts'][i], sep='\n      '); print('  Lean:', *(chunks[i] if i < len(chunks) else ['<missing>']), sep='\n      ')
+        return 1
+
+
+ML = lambda *f, **k: MarkerLayer(list(f), **k)
+PROPS['C01']['layers'].append(ML(P.p_m_c01, P.p_m_c02, profile=dict(faults=0.3)))
+PROPS['C02']['layers'].append(ML(P.p_m_c02, P.p_m_c01, generic=[P.p_c02_c03], profile=dict(faults=0.5)))
+PROPS['C03']['layers'].append(ML(P.p_m_c02, generic=[P.p_c02_c03], profile=dict(faults=0.5)))
+PROPS['C08']['layers'].append(ML(P.p_m_c08, P.p_m_c01, profile=dict(faults=0.3)))
